@@ -45,6 +45,9 @@ def run(ctx):
     malsec.padding_guard(ctx, facts, "GUARD-padding")
     malsec.dzkp_verify_guard(ctx, facts, "GUARD-dzkp")
     malsec.drop_guard(ctx, facts, "WHO-drop")
+    from rules import C04
+    C04.wire_acc(ctx, facts)
+    C04.wire_mul(ctx, facts)
     downgrade_users(ctx, facts)
     ctx.assume("cryptographic soundness of DZKP / MAC / hash checks is not decided; only that they are invoked, ordered and gate success")
 
